@@ -483,6 +483,8 @@ func (sr *srcRenderer) unsup(m J, ind string) string {
 	case "rparrbrk", "rparrcnt":
 		jump := map[string]string{"rparrbrk": "break", "rparrcnt": "continue"}[str(m["u"])]
 		t = fmt.Sprintf("for k, v := range &uarr {\n\tif r.T(%d) {\n\t\t%s\n\t}\n\tr.E(%d, k, v)\n}\n", id+1, jump, id+2)
+	case "fordefer":
+		t = fmt.Sprintf("for r.T(%d) {\n\tdefer r.E(%d, a, b)\n}\n", id, id+1)
 	case "elifinit":
 		t = fmt.Sprintf("if r.T(%d) {\n\tr.E(%d, a, b)\n} else if %s; r.T(%d) {\n\tr.E(%d, a, b)\n}\n", id, id+1, Y("a"), id+2, id+3)
 	case "lrange":
